@@ -378,7 +378,31 @@ def kind_c(report, tier, seed):
     evals += 4
     if not (cold == warm == cold2 == {(0,): 10.0, (1,): 3.0}) or other != {(0,): 15.0, (1,): 2.0} or hits < 1:
         report.violation("cache:warm-vs-cold", dict(what=f"cold {cold}, warm {warm}, cold again {cold2}, other problem {other}, cache hits {hits}"), True)
-    report.bounded.append(dict(engine="subprocesses with different PYTHONHASHSEED and reversed request order (sha1 of the generated text), typer CliRunner vs generate_code, lru_cache warm vs cold",
+    # the cache is invisible: a result obtained earlier from a cached kernel is not altered by later calls of the same
+    # kernel (outputs of order 0, 1 and 2; dense and compressed; the earlier result read again AFTER the later call)
+    from tensora import tensor_method
+
+    cachable_tensor_method.cache_clear()
+    alias_cases = [("s() = x(i) * y(i)", "", {"x": "d", "y": "d"}, [dict(x={(0,): 1.0, (1,): 2.0}, y={(0,): 4.0, (1,): 14.0}), dict(x={(0,): 7.0}, y={(0,): 1.0})], (2,)),
+                   ("a(i) = b(i) + c(i)", "s", {"b": "s", "c": "s"}, [dict(b={(0,): 1.0}, c={(2,): 2.0}), dict(b={(1,): 5.0}, c={(1,): 6.0})], (3,)),
+                   ("A(i,j) = B(i,j) * 2", "ds", {"B": "ds"}, [dict(B={(0, 1): 1.0}), dict(B={(1, 0): 3.0, (1, 1): 4.0})], (2, 2))]
+    for text, ofmt, ifmts, datasets, dims in alias_cases:
+        for route in ("evaluate", "tensor_method"):
+            try:
+                results, snaps = [], []
+                tm = tensor_method(text, {**{text.split("(")[0].strip(): ofmt}, **ifmts}) if route == "tensor_method" else None
+                for data in datasets:
+                    args = {n: Tensor.from_dok(d, dimensions=dims[: len(next(iter(d)))] if d else dims, format=ifmts[n]) for n, d in data.items()}
+                    r_ = tm(**args) if tm is not None else evaluate(text, ofmt, **args)
+                    results.append(r_)
+                    snaps.append(r_.to_dok())
+                    evals += 1
+                again = [r_.to_dok() for r_ in results]
+                if again != snaps:
+                    report.violation(f"cache:earlier-result-altered:{route}:{text}"[:140], dict(what=f"{route}: results read right after each call {snaps}, the same objects read after the last call {again}: a later call of the cached kernel changed an earlier result", assignment=text), True)
+            except Exception as e:  # noqa: BLE001
+                report.undecide(f"cache aliasing case {text} ({route}) could not run: {type(e).__name__}: {e}")
+    report.bounded.append(dict(engine="subprocesses with different PYTHONHASHSEED and reversed request order (sha1 of the generated text), typer CliRunner vs generate_code, lru_cache warm vs cold, earlier results re-read after later calls",
                                bound=f"{len(base)} (problem, language) texts x hash seeds {seeds} + reversed order; {len(cases)} CLI cases", evaluations=evals, distinct_nontrivial=len(base),
                                rule="distinct = (problem, language) pairs whose text is compared across processes"))
     report.samples = [dict(problem=k, sha1=v) for k, v in list(base.items())[:5]]
